@@ -677,10 +677,22 @@ Example demo_slot_reuse :
   end.
 Proof. vm_compute. split; [reflexivity|]. eexists. split; reflexivity. Qed.
 
-(* why fix bbd3023 was needed: a pop from pending_capacity that is not followed by transition_after, on a record whose last reason
-   it was, is rejected by the model at the end of the section (Quiesce guard, Stuck 9); the unrepaired code kept the record for ever *)
-Example evict_needs_transition :
+(* KF-C19-3: a pop from pending_capacity that is not followed by transition_after, on a record whose last reason it was, is
+   rejected by the model at the end of the section (Quiesce guard, Stuck 9); the implementation keeps the record for ever *)
+Example known_evict_refuted :
   srun (sinit None None 0%Z 20%Z None)
        [ LInsert 0 1 1; LPush KCap (0, 1); LTransitionAfter (0, 1) (mkSO true false false true); LQuiesce;
          LPop KCap; LQuiesce ] = inr (5, SStuck 9).
 Proof. vm_compute. reflexivity. Qed.
+
+(* the non-known order: a pop that IS followed by transition_after releases a record whose last reason it was *)
+Theorem evicted_record_released_except_known st q k st1 o r1 st2 outs :
+  SInv st -> sstep st (LPop q) = SOk st1 [OKey k] ->
+  resolve st1 k = Some r1 -> r_ref r1 = 0 -> no_flags r1 = true -> so_closed o = true ->
+  sstep st1 (LTransitionAfter k o) = SOk st2 outs ->
+  resolve st2 k = None /\ alook (fst k) (slab st2) = None.
+Proof.
+  intros H E1 Hr H0 Hn Hc E2.
+  pose proof (sstep_inv st (LPop q) H) as X. unfold sstep_ok in X. rewrite E1 in X.
+  destruct (released_is_removed st1 k o r1 st2 outs X Hr Hc H0 Hn E2) as (A & B & _). auto.
+Qed.
